@@ -19,6 +19,11 @@ func (m *Message) SkipClassAdRaw(ctx context.Context) error {
 		return fmt.Errorf("failed to read expression count: %w", err)
 	}
 	for i := 0; i < numExprs; i++ {
+		// Every expression occupies at least one byte on the wire; SkipString treats
+		// end of message as a terminator, so stop here instead of counting on.
+		if err := m.ensureData(ctx, 1); err != nil {
+			return fmt.Errorf("message ended before expression %d (expected %d): %w", i, numExprs, err)
+		}
 		isMarker, err := m.skipStringMatch(ctx, SecretMarker)
 		if err != nil {
 			return fmt.Errorf("failed to skip expression %d (expected %d): %w", i, numExprs, err)
